@@ -307,6 +307,18 @@ def run(chk, ctx):
            '(%s): a later call can emit bytes that no longer match the '
            'object' % '; '.join(sorted(set(memo))[:2]),
            site='pamqp/base.py')
+    # the frame envelope comes back as written: type, channel and size are
+    # read unsigned (a channel >= 32768 read signed comes back negative)
+    from .. import framepaths as _F
+    f0_ = _F.UnmarshalFacts(ctx, None)
+    if f0_.header is not None:
+        chk.ob('C10.P', 'frame envelope read', f0_.header.norm_ok(),
+               'header fields read as %s' % f0_.header.describe(),
+               detail={'expected': 'u8 type, u16 channel, u32 size, '
+                       'big-endian, as the encoder writes them'},
+               site='pamqp/frame.py')
+    else:
+        chk.undecide('C10.P', 'frame envelope read', 'no header read found')
     # key truncation must be announced
     truncation_check(chk, ctx)
     chk.assume('values of foreign types that subclass the guarded types '
